@@ -188,6 +188,53 @@ func vkOnChain(q vkQuery, all []vkSet) (chain []vkSet, off int) {
 	return chain, off
 }
 
+func vkOffChain(q vkQuery, all []vkSet) []vkSet {
+	chain, _ := vkOnChain(q, all)
+	on := map[string]bool{}
+	for _, s := range chain {
+		on[fmt.Sprintf("%s|%d", s.owner, s.rtype)] = true
+	}
+	var off []vkSet
+	for _, s := range all {
+		if !on[fmt.Sprintf("%s|%d", s.owner, s.rtype)] {
+			off = append(off, s)
+		}
+	}
+	return off
+}
+
+// vkAllAuthentic: every RRset is exactly what a secure zone of the model publishes.
+func (w *vkWorld) vkAllAuthentic(sets []vkSet) bool {
+	for _, s := range sets {
+		var want []dns.RR
+		var st zonemodel.Status
+		var found bool
+		if s.rtype == dns.TypeNSEC || s.rtype == dns.TypeNSEC3 {
+			want, st, found = w.u.DenialRRset(s.owner, s.rtype)
+		} else {
+			want, st, found = w.u.AuthRRset(s.owner, s.rtype)
+		}
+		if st != zonemodel.Secure || !found || zonemodel.SetKey(want) != zonemodel.SetKey(s.rrs) {
+			return false
+		}
+	}
+	return true
+}
+
+func vkSecStr(rrs []dns.RR) string {
+	var p []string
+	for _, rr := range rrs {
+		if rr.Header().Rrtype != dns.TypeRRSIG {
+			p = append(p, strings.Join(strings.Fields(rr.String()), " "))
+		}
+	}
+	s := strings.Join(p, " ; ")
+	if len(s) > 400 {
+		s = s[:400] + "..."
+	}
+	return s
+}
+
 // vkJudge applies exactly the property to one client-visible reply.
 func (w *vkWorld) vkJudge(q vkQuery, r h_resolver.Reply, noAnchors bool) vkVerdict {
 	if r.Msg == nil {
@@ -297,8 +344,10 @@ func (w *vkWorld) vkJudge(q vkQuery, r h_resolver.Reply, noAnchors bool) vkVerdi
 	assertsTerminal := len(t.Answer) == 0 || t.Terminal == "answer" || m.Rcode == dns.RcodeNameError
 	if m.AuthenticatedData {
 		switch {
-		case offChain > 0:
-			return bad("ad-on-unauthentic", "AD=1 on a reply whose answer section carries %d RRset(s) that are not on the answer chain of the question", offChain)
+		case offChain > 0 && !w.vkAllAuthentic(vkOffChain(q, all)):
+			return bad("ad-on-unauthentic", "AD=1 on a reply whose answer section carries RRset(s) off the answer chain that are not authentic zone data")
+		case !w.vkAllAuthentic(vkGroup(m.Ns)):
+			return bad("ad-on-unauthentic", "AD=1 on a reply whose authority section carries an RRset that is not authentic zone data: %s", vkSecStr(m.Ns))
 		case !full && !prefix:
 			return bad("ad-on-unauthentic", "AD=1 but the reply is not the model's truth (%s/%s/%s)", dns.RcodeToString[t.Rcode], t.Terminal, t.Status)
 		case !allSecure:
